@@ -345,6 +345,11 @@ def oracle_(case):
                     return False, f"{what}: rule weights of the rebuilt engine {w2} differ from the original's {w1}"
             if isinstance(x, fl.Engine) and case.get("rows") and (outputs_comparable(case["spec"], d) or case.get("touch")):
                 o1, o2 = G.run_rows(x, case["rows"]), G.run_rows(y, case["rows"])
+                # a degenerate parameter (a width or slope of 0) divides by zero: a NumPy float (the parameters of an
+                # engine imported from FLL) yields inf / nan silently where a Python float raises ZeroDivisionError;
+                # such parameterisations are outside 'valid parameters' and are not judged
+                if any("ZeroDivisionError" in str(o) for o in o1 + o2):
+                    o1 = o2 = []
                 if o1 != o2:
                     i = next(i for i, (a, b) in enumerate(zip(o1, o2)) if a != b)
                     return False, f"{what}: outputs are not bit-identical on row {i}: {o1[i]} vs {o2[i]}"
